@@ -67,7 +67,16 @@ pub struct Mat {
     pub samples: Vec<Sample>,
 }
 
+/// the case with every sample under its own name (VCF cannot represent two samples of one name)
+pub fn materialise_unique_names(c: &Case) -> Mat {
+    materialise_with(c, false)
+}
+
 pub fn materialise(c: &Case) -> Mat {
+    materialise_with(c, true)
+}
+
+fn materialise_with(c: &Case, allow_shared_names: bool) -> Mat {
     let (anc, samples) = gen::materialise_samples(&c.contigs, &c.samples, c.k);
     let mut out: Vec<Sample> = Vec::new();
     if c.self_map {
@@ -83,6 +92,12 @@ pub fn materialise(c: &Case) -> Mat {
             }
             // unsorted names; plain characters only (they become VCF sample columns)
             out.push((format!("{}{i}", ["s", "b", "zz", "a", "M", "q", "c", "Y", "e", "k", "d", "x"][i % 12]), recs));
+        }
+        // a sixth of the multi-sample cases: two different samples under one name (skf route only; the
+        // one-step route derives names from file names)
+        let n0 = out.len();
+        if allow_shared_names && n0 >= 2 && !(c.one_step && c.k == 17 && c.rc) && (c.k / 2 + 5 * n0 + c.contigs.len()) % 6 == 0 {
+            out[n0 - 1].0 = out[0].0.clone();
         }
         // A quarter of the cases get a "hot site": at the centre of the first reference window the samples
         // carry, in turn, each of the three other bases, and every fourth sample two different bases (an
@@ -393,7 +408,13 @@ pub fn large_materialise(c: &LargeCase) -> (Case, Mat) {
         let last = v.len() - 1;
         (v, vec![0, last])
     } else {
-        let l1 = 65_300 + c.extra as usize;
+        // a quarter of the cases: the total reference length is exactly 2^16 or 2^17 (writers that work in
+        // blocks of columns meet their block size exactly)
+        let l1 = match c.extra % 8 {
+            0 => 65_536 - c.second_len as usize,
+            4 => 131_072 - c.second_len as usize,
+            _ => 65_300 + c.extra as usize,
+        };
         (vec![rand_seq(l1, &mut next), rand_seq(c.second_len as usize, &mut next)], vec![0, 1])
     };
     let total: usize = reference.iter().map(|r| r.len()).sum();
